@@ -88,6 +88,7 @@ def main():
     ap.add_argument("pid")
     ap.add_argument("--tier", default=os.environ.get("VERIF_TIER", "quick"))
     ap.add_argument("--replay", default=None)
+    ap.add_argument("--no-proofs", action="store_true", help="development only: skip the Lean obligations")
     a = ap.parse_args()
     pid = a.pid
     tier = "thorough" if a.tier == "thorough" else "quick"
@@ -118,6 +119,8 @@ def main():
     obl = {"ok": False, "theorems": [], "errors": []}
     if trans_err:
         obl["errors"].append("translator: " + trans_err)
+    elif a.no_proofs:
+        obl = {"ok": True, "theorems": [], "errors": []}
     else:
         obl = lean_obligations(pid)
     broken_obligation = not obl["ok"]
